@@ -1134,7 +1134,8 @@ func ImportToPath(pkgPath, pkgName string) string {
 func (decl ImportDecl) CoqDecl() string {
 	coqPath := pathToCoqPath(decl.Path)
 	coqImportPath := strings.ReplaceAll(path.Dir(coqPath), "/", ".")
-	name := path.Base(decl.Path)
+	// the file of the imported package is named after the mapped path, too
+	name := path.Base(coqPath)
 	if decl.Trusted {
 		return fmt.Sprintf("From Perennial.goose_lang.trusted Require Import %s.%s.", coqImportPath, name)
 	} else {
